@@ -2,8 +2,10 @@
 import os
 import shutil
 
-from .. import build, corpus, fmt, run
-from ..common import VERIF, REPO, case_dir, pmap, rng, sha
+import re
+
+from .. import build, corpus, fmt, progen, run
+from ..common import VERIF, REPO, case_dir, fixed_rng, pmap, rng, sha
 
 LEVEL = 'exploration'
 PROP = 'C05'
@@ -40,6 +42,52 @@ def _pair(t):
     finally:
         shutil.rmtree(d, ignore_errors=True)
     return (prof, rel, 'ok' if a.out != x else 'ok-unchanged', '', None)
+
+
+COMMENT_SHAPES = {
+    'plain': '/* note %d */',
+    'cpp': '// note %d',
+    'box': '/**********\n * box %d\n **********/',
+    'box-wide': '/*======================*\n *  wide box %d         *\n *======================*/',
+    'doxy': '/**\n * doxy %d\n * @param x  y\n */',
+    'star-less': '/*\n   plain %d\n      deeper\n   back\n*/',
+    'two-line': '/* one %d\n   two */',
+    'cpp-run': '// run %d\n// second line\n// third',
+    'trailing': None,
+}
+
+
+def gen_source(i):
+    """Member i of the generated universe: a C/C++ program with one comment shape at every comment position."""
+    fr = fixed_rng(PROP, 'gen%d' % i)
+    lang = fr.choice(['C', 'CPP'])
+    shape = fr.choice(sorted(COMMENT_SHAPES))
+    P = progen.gen(lang, fr, nfuncs=(1, 2), depth_max=fr.choice([2, 3, 4]), stmts=(1, 3), budget=20, comments=True)
+    ind = fr.choice([2, 3, 4, 8])
+    src, idx = P.render(fr, style=fr.choice(['allman', 'kr', 'mixed']), indent=ind, tabs=fr.random() < 0.3)
+    out = []
+    n = 0
+    for line in src.decode().split('\n'):
+        t = line.lstrip(' \t')
+        lead = line[:len(line) - len(t)]
+        if t.startswith(('/* note', '// note', '/* a\tb')):
+            n += 1
+            if COMMENT_SHAPES[shape] is None:
+                if out and out[-1].rstrip().endswith(';'):
+                    out[-1] = out[-1] + '   /* trailing %d */' % n
+                continue
+            for cl in (COMMENT_SHAPES[shape] % n).split('\n'):
+                out.append(lead + cl)
+        else:
+            out.append(line)
+    return lang, shape, '\n'.join(out).encode()
+
+
+def _gen_pair(t):
+    prof, i = t
+    lang, shape, x = gen_source(i)
+    r = _pair((prof, 'gen%d' % i, lang, x))
+    return r + (shape, x)
 
 
 def first_diff(a, b):
@@ -85,6 +133,36 @@ def check(ctx):
             ctx.violation('%s|%s|%s' % (verdict, prof, rel), '%s: profile %s, file tests/input/%s: %s' % (verdict, prof, rel, detail),
                           files={'profile.cfg': profile_text(prof), 'input': corpus.read(rel), 'pass1': out},
                           argv=['uncrustify', '-c', 'profile.cfg', '-l', dict(files)[rel], '-f', 'pass1'])
+    # generated programs (fixed universe) with a comment shape at every comment position, space- or tab-indented, x profiles
+    GU = 20000
+    ctx.extra['generated_universe'] = GU * len(PROFILES)
+    gsel = [(sr.choice(PROFILES), i) for i in sr.sample(range(GU), 1500 if quick else 12000)]
+    for prof, rel, verdict, detail, out, shape, x in pmap(_gen_pair, gsel):
+        ctx.evaluations += 1
+        ctx.count('gen_' + verdict)
+        if verdict == 'ok':
+            ctx.nt(prof, rel)
+        elif verdict in ('unstable', 'second-pass-refused', 'check-fails'):
+            m = re.match(r"line \d+: b(['\"])(.*)\1 -> b(['\"])(.*)\3$", detail)
+            what = 'other'
+            if m:
+                p1, p2 = m.group(2), m.group(4)
+                t1, t2 = p1.replace('\\t', ' ').strip(), p2.replace('\\t', ' ').strip()
+                if t1.startswith(('*', '/*', '//')) or t2.startswith(('*', '/*', '//')):
+                    what = 'comment-line|' + shape
+                elif 'else' in t1 and re.sub(r'\s+', '', t1) == re.sub(r'\s+', '', t2):
+                    what = 'else-brace-spacing'
+                elif t1.rstrip().endswith('{') and t1.rstrip()[:-1].rstrip() == t2.rstrip():
+                    what = 'brace-removed-on-second-pass'
+                elif t2.rstrip().endswith('{') and t2.rstrip()[:-1].rstrip() == t1.rstrip():
+                    what = 'brace-added-on-second-pass'
+                elif re.sub(r'\s+', '', t1) == re.sub(r'\s+', '', t2):
+                    what = 'spacing'
+                elif len(p1) >= 78:
+                    what = 'long-line'
+            ctx.violation('%s-generated|%s|%s' % (verdict, prof, what), '%s: profile %s, generated program %s (comment shape %s): %s' % (
+                verdict, prof, rel, shape, detail), files={'profile.cfg': profile_text(prof), 'input': x, 'pass1': out},
+                argv=['uncrustify', '-c', 'profile.cfg', '-f', 'pass1'])
     weak = [t for t in corpus.tests() if t[3]]
     wsel = sr.sample(weak, 800) if quick else weak
     for tid, verdict, detail in pmap(_weak, wsel):
